@@ -240,14 +240,16 @@ EXTRA = {
            "is evaluated on a signed value alphabet against the exact factor.",
     "C14": " The alphabet now has ~45 calls (same-month dates, wrapped-function / in-place-then-discard / file-path reforms); fresh-interpreter references "
            "are repeated under several PYTHONHASHSEED values.",
-    "C15": " Also: every hand-written group-level rule of EVERY period evaluated directly on typed argument alphabets: changing an individual-level "
+    "C15": " Also: two / three households in ONE table with rows round-robin across households, adults first and reversed (groups not adjacent, "
+           "derived ids sparse). Also: every hand-written group-level rule of EVERY period evaluated directly on typed argument alphabets: changing an individual-level "
            "argument while the group-level arguments stay fixed must not change its value.",
     "C16": " Also: a 5 EUR (thorough 1 EUR) wage lattice with every contribution boundary x 0/1/2/3/5 children x region x age 22 / 40 through all nodes; "
            "the exact Elterngeld cap incl. sibling and multiple-birth bonuses.",
     "C17": " Twelve scenarios now, incl. two adult-led needs units and pensioners living with dependent children (alone, retired partner, working partner).",
     "C18": " Also: the same critical points with scaled rates (ten multipliers incl. every spelling of zero) against exact accumulation.",
     "C19": " Profiles now: 0/1/2/5 children under 25, age 35 and childless 21, with and without a pension (900 / 2500) on top of the wage.",
-    "C20": " Also: tiny fractions and fractions on large values; faults and lossless variants in columns that OVERRIDE a rule (typed by its return "
+    "C20": " Also: every way of pointing at nobody other than -1 (next / previous id, 0, -2, -3, -9999, -2**31) in every pointer column and row. "
+           "Also: tiny fractions and fractions on large values; faults and lossless variants in columns that OVERRIDE a rule (typed by its return "
            "annotation, incl. the datetime rule).",
 }
 NOTE_FIX = {
